@@ -437,6 +437,15 @@ func C07(c *hx.Ctx) {
 	for _, x := range aloneRingFamily(c.Thorough()) {
 		ws = append(ws, wcase{x.g, x.class, x.n})
 	}
+	// one repeat at a distance of exactly 2^e (and its neighbours): every distance-slot boundary of the coder
+	for e := 12; e <= 24; e++ {
+		for _, d := range []int{-1, 0, 1} {
+			if !c.Thorough() && (e%4 != 0 || (d != 0 && e != 24)) {
+				continue
+			}
+			ws = append(ws, wcase{AloneCfg{LC: 3, LP: 0, PB: 2, DictCap: 1 << 25, BufSize: 4096, Matcher: 0}, "farrepeat", 1<<uint(e) + d + 300})
+		}
+	}
 	var forXz [][]byte
 	var forXzPlain bytes.Buffer
 	wops := &opsBatch{}
